@@ -48,7 +48,7 @@ Lemma Q2R_HOUR : Q2R HOUR = 3600.   Proof. unfold Q2R, HOUR; simpl; field. Qed.
 Lemma evalR_LN2 : evalR ln2_env_R LN2 = ln 2.
 Proof. reflexivity. Qed.
 
-Ltac ev := unfold b_code, b_spec, b_scale, n2_code, n2_spec, n2_term, main_code, small_code, act_spec, act_d, act_V,
+Ltac ev := unfold b_code, b_spec, b_scale, n2_code, n2_spec, n2_term, main_code, small_code, expm1_code_pos, expm1_code_neg, act_x, act_spec, act_d, act_V,
              expm1, eexp_neg, c in *; cbn [evalR] in *; rewrite ?Q2R_1, ?Q2R_2, ?Q2R_HOUR in *.
 
 (* ------------------------------------------------------------------ the code-shaped formulas are the chain solutions *)
@@ -92,6 +92,24 @@ Section Builders.
     [[lam]] - [[k1]] + [[kb]] <> 0 ->
     [[main_code root lam k1 kb t]] = [[act_spec atoms lam k1 kb t]].
   Proof. intros root atoms lam k1 kb t Hr Hd. ev. rewrite Hr. field. lra. Qed.
+
+  (* the repaired forms: exp(-U) (1 - exp(-x)) and exp(-V) (exp(x) - 1) with x = V - U *)
+  Lemma expm1_code_pos_eq_spec : forall root atoms lam k1 kb t, [[root]] = [[atoms]] * [[k1]] / 3600 ->
+    [[lam]] - [[k1]] + [[kb]] <> 0 ->
+    [[expm1_code_pos root lam k1 kb t]] = [[act_spec atoms lam k1 kb t]].
+  Proof.
+    intros root atoms lam k1 kb t Hr Hd. ev. rewrite Hr.
+    replace (- (([[kb]] + [[lam]]) * [[t]])) with (- ([[k1]] * [[t]]) + - (([[lam]] - [[k1]] + [[kb]]) * [[t]])) by ring.
+    rewrite exp_plus. field. lra.
+  Qed.
+  Lemma expm1_code_neg_eq_spec : forall root atoms lam k1 kb t, [[root]] = [[atoms]] * [[k1]] / 3600 ->
+    [[lam]] - [[k1]] + [[kb]] <> 0 ->
+    [[expm1_code_neg root lam k1 kb t]] = [[act_spec atoms lam k1 kb t]].
+  Proof.
+    intros root atoms lam k1 kb t Hr Hd. ev. rewrite Hr.
+    replace (- ([[k1]] * [[t]])) with (- (([[kb]] + [[lam]]) * [[t]]) + ([[lam]] - [[k1]] + [[kb]]) * [[t]]) by ring.
+    rewrite exp_plus. field. lra.
+  Qed.
 
   Lemma act_spec_solution : forall atoms lam k1 kb t,
     [[act_spec atoms lam k1 kb t]] = [[lam]] / 3600 * c1_N2 [[atoms]] [[k1]] ([[kb]] + [[lam]]) [[t]].
@@ -178,8 +196,8 @@ Ltac split_row H :=
 
 (* what the tie compares with: the [spec] expression the model emits IS the chain solution of
    Spec/Activation.v for the row's cross sections and half-lives, and [lam] is ln 2 / T *)
-Theorem model_spec_is_chain_solution : forall sb r amass mass env t br a m lam spec,
-  activity_row_with sb r amass mass env t = OAct br a m lam spec ->
+Theorem model_spec_is_chain_solution : forall cfg r amass mass env t br a m lam spec,
+  activity_row_with cfg r amass mass env t = OAct br a m lam spec ->
   evalR ln2_env_R spec =
     activity_end (chain_of br) (Q2R mass) (IZR amass) (Q2R (row_flux r env)) (Q2R (fluence env))
                  (Q2R (row_xs r env)) (Q2R (row_xs2 r env)) (Q2R (r_thalf r)) (Q2R (r_thalf_par r)) (Q2R t)
@@ -189,34 +207,24 @@ Proof.
     assert (HA : amass <> 0%Z) by (apply Z.eqb_neq; assumption);
     assert (HT : Q2R (r_thalf r) <> 0) by (rewrite <- Q2R_0; apply Qeq_bool_false_R; assumption);
     unfold activity_end, chain_of.
-  - (* b *)
+  1: { (* b *)
     assert (HTp : Q2R (r_thalf_par r) <> 0) by (rewrite <- Q2R_0; apply Qeq_bool_false_R; assumption).
     assert (HTT : Q2R (r_thalf_par r) <> Q2R (r_thalf r)) by (apply Qeq_bool_false_R; assumption).
     rewrite (b_spec_solution ln2_env_R _ _ _ _ (atoms (Q2R mass) (IZR amass) * rate (Q2R (row_flux r env)) (Q2R (row_xs r env)))).
     + rewrite !lam_is. reflexivity.
     + cbn [evalR c]. apply root_is; assumption.
     + rewrite lam_is. apply decay_const_neq0; assumption.
-    + rewrite !lam_is. intro E. apply HTT. apply decay_const_inj; assumption.
-  - (* 2n *)
+    + rewrite !lam_is. intro E. apply HTT. apply decay_const_inj; assumption. }
+  1: { (* 2n *)
     rewrite (n2_spec_solution ln2_env_R _ _ _ _ _ _ (atoms (Q2R mass) (IZR amass))).
     + rewrite !lam_is. cbn [evalR c]. rewrite k1_is', k2c_is. reflexivity.
-    + cbn [evalR c]. rewrite k1_is'. rewrite root_is by assumption. unfold Rdiv. ring.
-  - rewrite act_spec_solution. rewrite lam_is. cbn [evalR c]. rewrite !k1_is, atoms_is by assumption. reflexivity.
-  - rewrite act_spec_solution. rewrite lam_is. cbn [evalR c]. rewrite !k1_is, atoms_is by assumption. reflexivity.
-  - rewrite act_spec_solution. rewrite lam_is. cbn [evalR c]. rewrite !k1_is, atoms_is by assumption. reflexivity.
-  - rewrite act_spec_solution. rewrite lam_is. cbn [evalR c]. rewrite !k1_is, atoms_is by assumption. reflexivity.
-  - rewrite act_spec_solution. rewrite lam_is. cbn [evalR c]. rewrite !k1_is, atoms_is by assumption. reflexivity.
-  - rewrite act_spec_solution. rewrite lam_is. cbn [evalR c]. rewrite !k1_is, atoms_is by assumption. reflexivity.
-  - rewrite act_spec_solution. rewrite lam_is. cbn [evalR c]. rewrite !k1_is, atoms_is by assumption. reflexivity.
-  - rewrite act_spec_solution. rewrite lam_is. cbn [evalR c]. rewrite !k1_is, atoms_is by assumption. reflexivity.
-  - rewrite act_spec_solution. rewrite lam_is. cbn [evalR c]. rewrite !k1_is, atoms_is by assumption. reflexivity.
-  - rewrite act_spec_solution. rewrite lam_is. cbn [evalR c]. rewrite !k1_is, atoms_is by assumption. reflexivity.
-  - rewrite act_spec_solution. rewrite lam_is. cbn [evalR c]. rewrite !k1_is, atoms_is by assumption. reflexivity.
+    + cbn [evalR c]. rewrite k1_is'. rewrite root_is by assumption. unfold Rdiv. ring. }
+  all: rewrite act_spec_solution; rewrite lam_is; cbn [evalR c]; rewrite !k1_is, atoms_is by assumption; reflexivity.
 Qed.
 
 (* on every branch but the small-argument one, the code-shaped expression denotes the chain solution *)
-Theorem model_refines_spec : forall sb r amass mass env t br a m lam spec,
-  activity_row_with sb r amass mass env t = OAct br a m lam spec ->
+Theorem model_refines_spec : forall cfg r amass mass env t br a m lam spec,
+  activity_row_with cfg r amass mass env t = OAct br a m lam spec ->
   br <> BSmall ->
   (br = BMain -> decay_const (Q2R (r_thalf r)) - rate (Q2R (row_flux r env)) (Q2R (row_xs r env))
                  + rate (Q2R (fluence env)) (Q2R (row_xs2 r env)) <> 0) ->
@@ -225,25 +233,19 @@ Proof.
   intros until spec. intros H Hns Hd. split_row H; injection H as <- <- <- <- <-; try (exfalso; apply Hns; reflexivity);
     assert (HA : amass <> 0%Z) by (apply Z.eqb_neq; assumption);
     assert (HT : Q2R (r_thalf r) <> 0) by (rewrite <- Q2R_0; apply Qeq_bool_false_R; assumption).
-  - (* b *)
+  1: { (* b *)
     assert (HTp : Q2R (r_thalf_par r) <> 0) by (rewrite <- Q2R_0; apply Qeq_bool_false_R; assumption).
     assert (HTT : Q2R (r_thalf_par r) <> Q2R (r_thalf r)) by (apply Qeq_bool_false_R; assumption).
-    apply b_code_eq_spec. rewrite !lam_is. intro E. apply HTT. apply decay_const_inj; assumption.
-  - apply n2_code_eq_spec.
-  - apply main_code_eq_spec.
-    + cbn [evalR c]. rewrite root_is, atoms_is, k1_is by assumption. reflexivity.
-    + rewrite lam_is. cbn [evalR c]. rewrite !k1_is. apply Hd. reflexivity.
-  - apply main_code_eq_spec.
-    + cbn [evalR c]. rewrite root_is, atoms_is, k1_is by assumption. reflexivity.
-    + rewrite lam_is. cbn [evalR c]. rewrite !k1_is. apply Hd. reflexivity.
-  - apply main_code_eq_spec.
-    + cbn [evalR c]. rewrite root_is, atoms_is, k1_is by assumption. reflexivity.
-    + rewrite lam_is. cbn [evalR c]. rewrite !k1_is. apply Hd. reflexivity.
+    apply b_code_eq_spec. rewrite !lam_is. intro E. apply HTT. apply decay_const_inj; assumption. }
+  1: apply n2_code_eq_spec.
+  all: first [apply main_code_eq_spec | apply expm1_code_pos_eq_spec | apply expm1_code_neg_eq_spec];
+    [ cbn [evalR c]; rewrite root_is, atoms_is, k1_is by assumption; reflexivity
+    | rewrite lam_is; cbn [evalR c]; rewrite !k1_is; apply Hd; reflexivity ].
 Qed.
 
 (* hence: the model's activity at the end of irradiation is the decay rate of the chain solution *)
-Corollary model_activity_is_chain_solution : forall sb r amass mass env t br a m lam spec,
-  activity_row_with sb r amass mass env t = OAct br a m lam spec ->
+Corollary model_activity_is_chain_solution : forall cfg r amass mass env t br a m lam spec,
+  activity_row_with cfg r amass mass env t = OAct br a m lam spec ->
   br <> BSmall ->
   (br = BMain -> decay_const (Q2R (r_thalf r)) - rate (Q2R (row_flux r env)) (Q2R (row_xs r env))
                  + rate (Q2R (fluence env)) (Q2R (row_xs2 r env)) <> 0) ->
@@ -256,26 +258,57 @@ Proof.
   apply (model_spec_is_chain_solution _ _ _ _ _ _ _ _ _ _ _ H).
 Qed.
 
-(* without the small-argument test the model never takes that branch, so the refinement is total *)
-Lemma no_small_branch : forall r amass mass env t br a m lam spec,
-  activity_row_with false r amass mass env t = OAct br a m lam spec -> br <> BSmall.
+(* without the small-argument test the model never takes that branch, never declines, and raises only
+   for a row whose mass number or half-life is 0 (or a 'b' row whose two half-lives coincide) *)
+Lemma no_small_branch : forall cfg r amass mass env t br a m lam spec, cfg_small cfg = false ->
+  activity_row_with cfg r amass mass env t = OAct br a m lam spec -> br <> BSmall.
 Proof.
-  intros until spec. intro H. unfold activity_row_with in H. cbv zeta in H. rewrite andb_false_l in H.
+  intros until spec. intros Hc H. unfold activity_row_with in H. cbv zeta in H. rewrite Hc, andb_false_l in H.
   repeat (match type of H with
   | context [if ?b then _ else _] => destruct b eqn:?
+  | context [match lin_ln2_neg ?a ?b with _ => _ end] => destruct (lin_ln2_neg a b) as [[|]|] eqn:?
   end; try discriminate H); injection H as <- <- <- <- <-; discriminate.
 Qed.
 
-Theorem model_refines_spec_repaired : forall r amass mass env t br a m lam spec,
-  activity_row_with false r amass mass env t = OAct br a m lam spec ->
+Lemma no_small_never_undecided : forall cfg r amass mass env t, cfg_small cfg = false ->
+  activity_row_with cfg r amass mass env t <> OUndecided.
+Proof.
+  intros cfg r amass mass env t Hc H. unfold activity_row_with in H. cbv zeta in H. rewrite Hc, andb_false_l in H.
+  repeat (match type of H with
+  | context [if ?b then _ else _] => destruct b eqn:?
+  | context [match lin_ln2_neg ?a ?b with _ => _ end] => destruct (lin_ln2_neg a b) as [[|]|] eqn:?
+  end; try discriminate H).
+Qed.
+
+Lemma no_small_raise_only_zero_div : forall cfg r amass mass env t e, cfg_small cfg = false ->
+  activity_row_with cfg r amass mass env t = ORaise e ->
+  e = ZeroDivErr /\ (amass = 0%Z \/ Qeq_bool (r_thalf r) 0 = true \/
+                     ((String.eqb (r_reaction r) "b" || String.eqb (r_reaction r) "2n")%bool = true /\ Qeq_bool (r_thalf_par r) 0 = true) \/
+                     (String.eqb (r_reaction r) "b" = true /\ Qeq_bool (r_thalf_par r) (r_thalf r) = true)).
+Proof.
+  intros cfg r amass mass env t e Hc H. unfold activity_row_with in H. cbv zeta in H. rewrite Hc, andb_false_l in H.
+  repeat (match type of H with
+  | context [if ?b then _ else _] => destruct b eqn:?
+  | context [match lin_ln2_neg ?a ?b with _ => _ end] => destruct (lin_ln2_neg a b) as [[|]|] eqn:?
+  end; try discriminate H); injection H as <-; (split; [reflexivity|]).
+  all: repeat match goal with Hb : (_ =? _)%string = true |- _ => rewrite Hb; clear Hb end.
+  all: try (left; apply Z.eqb_eq; assumption).
+  all: try (right; left; assumption).
+  all: try (right; right; left; split; [reflexivity || (rewrite orb_true_r; reflexivity)|assumption]).
+  all: try (right; right; right; split; [reflexivity|assumption]).
+  all: idtac "LEFT". Show.
+Qed.
+
+Theorem model_refines_spec_repaired : forall cfg r amass mass env t br a m lam spec, cfg_small cfg = false ->
+  activity_row_with cfg r amass mass env t = OAct br a m lam spec ->
   (br = BMain -> decay_const (Q2R (r_thalf r)) - rate (Q2R (row_flux r env)) (Q2R (row_xs r env))
                  + rate (Q2R (fluence env)) (Q2R (row_xs2 r env)) <> 0) ->
   evalR ln2_env_R a =
     activity_end (chain_of br) (Q2R mass) (IZR amass) (Q2R (row_flux r env)) (Q2R (fluence env))
                  (Q2R (row_xs r env)) (Q2R (row_xs2 r env)) (Q2R (r_thalf r)) (Q2R (r_thalf_par r)) (Q2R t).
 Proof.
-  intros until spec. intros H Hd.
-  apply (model_activity_is_chain_solution false _ _ _ _ _ _ _ _ _ _ H (no_small_branch _ _ _ _ _ _ _ _ _ _ H) Hd).
+  intros until spec. intros Hc H Hd.
+  apply (model_activity_is_chain_solution cfg _ _ _ _ _ _ _ _ _ _ H (no_small_branch _ _ _ _ _ _ _ _ _ _ _ Hc H) Hd).
 Qed.
 
 (* rest decay of the model: exp(-lam t) with lam = ln 2 / T is 2^(-t/T) *)
@@ -295,14 +328,14 @@ Proof.
 Qed.
 
 (* ------------------------------------------------------------------ omission rules *)
-Theorem fast_omitted : forall sb r amass mass env t,
+Theorem fast_omitted : forall (sb : actcfg) r amass mass env t,
   r_fast r = true -> Qeq (fast_ratio env) 0 -> activity_row_with sb r amass mass env t = OSkip.
 Proof.
   intros sb r amass mass env t Hf H0. unfold activity_row_with. rewrite Hf.
   apply Qeq_bool_iff in H0. rewrite H0. reflexivity.
 Qed.
 
-Theorem fast_included : forall sb r amass mass env t,
+Theorem fast_included : forall (sb : actcfg) r amass mass env t,
   ~ Qeq (fast_ratio env) 0 -> activity_row_with sb r amass mass env t <> OSkip.
 Proof.
   intros sb r amass mass env t H0 H. assert (E : Qeq_bool (fast_ratio env) 0 = false).
